@@ -89,7 +89,7 @@ def analyze_dml(case, sm):
         new = [u for u in st.get("undo") or [] if u["branch_id"] not in prev]
         items = [it for u in new for it in u.get("items") or []]
         if items:
-            img = items[0]["after"] if sm["kind"] == "insert" else items[0]["before"]
+            img = items[0]["after"] if sm["kind"] in ("insert", "upsert") else items[0]["before"]
             idx = {n.lower(): i for i, n in enumerate(names)}
             rows = [[(idx[c["name"].lower()], U.canon_tv(c["value"])) for c in row if c["name"].lower() in idx] for row in (img or {}).get("rows") or []]
             res["lcase"] = "{| l_table := %s; l_pk := %s; l_rows := %s; l_changed := %s; l_obs := %s |}" % (
